@@ -55,6 +55,12 @@ TINY = [
       "send_plan": [40, 0, 1, 0, 40, 0]}, "attrs", 0),
     ({"msgs": ["get", "get"], "cuts": [], "close": False, "lookahead": 1, "workers": 1,
       "maint": True, "channel_timeout": -1000}, "locks", 1),
+    # send_continue's flush fails (48f7fa0: will_close through _flush_exception): at the tail of
+    # service() on the worker, and inside received() on the I/O thread with a request behind it
+    ({"msgs": ["get", "exphead", "body3", "get"], "cuts": [], "close": False, "lookahead": 0, "workers": 1,
+      "send_plan": [None, None, ["err", 113]]}, "attrs", 0),
+    ({"msgs": ["exphead", "body3", "get"], "cuts": [], "close": False, "lookahead": 1, "workers": 1,
+      "send_plan": [["err", 113]]}, "locks", 1),
     ({"msgs": ["get", "get"], "cuts": ["boundaries"], "close": False, "lookahead": 1, "workers": 1,
       "shutdown": 1, "shutdown_timeout": 0.05}, "locks", 1),
 ]
